@@ -17,6 +17,13 @@ noncomputable instance : Transc ℝ where
 
 namespace USProofs
 
+/-! Small `Except` monad lemmas (the model's error handling is in `Except Err`). -/
+@[simp] theorem except_bind_ok {ε α β : Type} (a : α) (f : α → Except ε β) :
+    (Except.ok a >>= f) = f a := rfl
+@[simp] theorem except_bind_error {ε α β : Type} (e : ε) (f : α → Except ε β) :
+    ((Except.error e : Except ε α) >>= f) = Except.error e := rfl
+@[simp] theorem except_pure {ε α : Type} (a : α) : (pure a : Except ε α) = Except.ok a := rfl
+
 @[simp] theorem transc_sqrt (x : ℝ) : Transc.sqrt x = Real.sqrt x := rfl
 @[simp] theorem transc_exp (x : ℝ) : Transc.exp x = Real.exp x := rfl
 @[simp] theorem transc_log (x : ℝ) : Transc.log x = Real.log x := rfl
